@@ -2,8 +2,106 @@ import Model.Units
 import Generated.Units
 /-!
 # C19 — declaring or converting a unit never changes the physical quantity reported
+
+Layers
+* `Generated.Units` — the tables of `unit.rs` as they are *now* (T-gen, rewritten on every check run);
+* `Units` (Model/Units.lean) — the executable model (`ratioND`, `convert`, `withUnit`, …);
+* `Units.Spec` (below) — the hand-written specification: SI prefixes, 1 byte = 8 bit, CloudWatch names.
+
+`c19_generated_is_model` ties the first to the second, `c19_table_is_SI` the second to the third; the
+remaining theorems are about the model with exact rational arithmetic (`ratArith`), for every value.
 -/
 namespace Units
+
+-- ------------------------------------------------------------------------------------------------
+-- hand-written specification
+
+namespace Spec
+
+/-- SI: micro = 10⁻⁶, milli = 10⁻³ (the exponent is negated) -/
+def negExp : Neg → Nat
+  | .micro => 6 | .milli => 3 | .one => 0
+
+/-- SI: kilo = 10³, mega = 10⁶, giga = 10⁹, tera = 10¹² -/
+def posExp : Pos → Nat
+  | .one => 0 | .kilo => 3 | .mega => 6 | .giga => 9 | .tera => 12
+
+/-- 1 byte = 8 bit -/
+def bitsPerBase : Base → Nat
+  | .byte => 8 | .bytePerSecond => 8 | .bit => 1 | .bitPerSecond => 1
+
+/-- how many of the unit make one second -/
+def perSecond (s : Neg) : Nat := 10 ^ negExp s
+
+/-- how many bits (per second) one unit is -/
+def bitsPer (b : Base) (s : Pos) : Nat := bitsPerBase b * 10 ^ posExp s
+
+/-- size of one unit of the tag in its base unit: seconds for the time units, bits (or bits per
+second) for the data units; 1 for the unitless tags -/
+def scale : Tag → Rat
+  | .second s => 1 / (perSecond s : Rat)
+  | .data b s => (bitsPer b s : Rat)
+  | _ => 1
+
+/-- the unit names of the CloudWatch `MetricDatum` API -/
+def cloudWatchName : Tag → List Char
+  | .none => chars! "None"
+  | .count => chars! "Count"
+  | .percent => chars! "Percent"
+  | .second .one => chars! "Seconds"
+  | .second .milli => chars! "Milliseconds"
+  | .second .micro => chars! "Microseconds"
+  | .data .byte .one => chars! "Bytes"
+  | .data .byte .kilo => chars! "Kilobytes"
+  | .data .byte .mega => chars! "Megabytes"
+  | .data .byte .giga => chars! "Gigabytes"
+  | .data .byte .tera => chars! "Terabytes"
+  | .data .bit .one => chars! "Bits"
+  | .data .bit .kilo => chars! "Kilobits"
+  | .data .bit .mega => chars! "Megabits"
+  | .data .bit .giga => chars! "Gigabits"
+  | .data .bit .tera => chars! "Terabits"
+  | .data .bytePerSecond .one => chars! "Bytes/Second"
+  | .data .bytePerSecond .kilo => chars! "Kilobytes/Second"
+  | .data .bytePerSecond .mega => chars! "Megabytes/Second"
+  | .data .bytePerSecond .giga => chars! "Gigabytes/Second"
+  | .data .bytePerSecond .tera => chars! "Terabytes/Second"
+  | .data .bitPerSecond .one => chars! "Bits/Second"
+  | .data .bitPerSecond .kilo => chars! "Kilobits/Second"
+  | .data .bitPerSecond .mega => chars! "Megabits/Second"
+  | .data .bitPerSecond .giga => chars! "Gigabits/Second"
+  | .data .bitPerSecond .tera => chars! "Terabits/Second"
+
+/-- the documented `As…` alias of every tag -/
+def aliasName : Tag → List Char
+  | .none => chars! "AsNone"
+  | .count => chars! "AsCount"
+  | .percent => chars! "AsPercent"
+  | .second .one => chars! "AsSeconds"
+  | .second .milli => chars! "AsMilliseconds"
+  | .second .micro => chars! "AsMicroseconds"
+  | .data .byte .one => chars! "AsBytes"
+  | .data .byte .kilo => chars! "AsKilobytes"
+  | .data .byte .mega => chars! "AsMegabytes"
+  | .data .byte .giga => chars! "AsGigabytes"
+  | .data .byte .tera => chars! "AsTerabytes"
+  | .data .bit .one => chars! "AsBits"
+  | .data .bit .kilo => chars! "AsKilobits"
+  | .data .bit .mega => chars! "AsMegabits"
+  | .data .bit .giga => chars! "AsGigabits"
+  | .data .bit .tera => chars! "AsTerabits"
+  | .data .bytePerSecond .one => chars! "AsBytesPerSecond"
+  | .data .bytePerSecond .kilo => chars! "AsKilobytesPerSecond"
+  | .data .bytePerSecond .mega => chars! "AsMegabytesPerSecond"
+  | .data .bytePerSecond .giga => chars! "AsGigabytesPerSecond"
+  | .data .bytePerSecond .tera => chars! "AsTerabytesPerSecond"
+  | .data .bitPerSecond .one => chars! "AsBitsPerSecond"
+  | .data .bitPerSecond .kilo => chars! "AsKilobitsPerSecond"
+  | .data .bitPerSecond .mega => chars! "AsMegabitsPerSecond"
+  | .data .bitPerSecond .giga => chars! "AsGigabitsPerSecond"
+  | .data .bitPerSecond .tera => chars! "AsTerabitsPerSecond"
+
+end Spec
 
 -- ------------------------------------------------------------------------------------------------
 -- finite enumerations are complete
@@ -19,7 +117,393 @@ theorem Tag.mem_all (t : Tag) : t ∈ Tag.all := by
   | second s => cases s <;> decide
   | data b s => cases b <;> cases s <;> decide
 
+theorem mem_convertiblePairs {a b : Tag} (h : convertible a b = true) : (a, b) ∈ convertiblePairs := by
+  unfold convertiblePairs
+  simp only [List.mem_flatMap, List.mem_map, List.mem_filter]
+  exact ⟨a, Tag.mem_all a, b, ⟨Tag.mem_all b, h⟩, rfl⟩
+
+-- non-vacuity: 26 tags, 435 = 26 + 9 + 400 ordered convertible pairs
 example : Tag.all.length = 26 := by decide
 example : convertiblePairs.length = 435 := by decide +kernel
+example : convertible .none .percent = true ∧ convertible (.second .one) (.second .micro) = true ∧
+    convertible (.data .bit .tera) (.data .bytePerSecond .kilo) = true ∧
+    convertible .count .count = false ∧ convertible (.second .one) (.data .bit .one) = false := by decide
+
+-- ------------------------------------------------------------------------------------------------
+-- T-gen: the tables of unit.rs are the model's
+
+open Generated.Units in
+/-- The regenerated tables of `unit.rs` / `primitive.rs` are exactly the model's: every scale factor,
+every row of the three tag macros (struct, alias, unit variant, bits, scale), the direction of the
+three `RATIO` formulas, every `Unit::name` string, and the unit/factor of `Duration`. -/
+theorem c19_generated_is_model :
+    (reductionFactor.length = 3 ∧ ∀ s : Neg, reductionFactor.lookup s.variant = some s.reductionFactor) ∧
+    (expansionFactor.length = 5 ∧ ∀ s : Pos, expansionFactor.lookup s.variant = some s.expansionFactor) ∧
+    (plainTags = [(Tag.none.rustName, Spec.aliasName .none, chars! "None"),
+                  (Tag.count.rustName, Spec.aliasName .count, chars! "Count"),
+                  (Tag.percent.rustName, Spec.aliasName .percent, chars! "Percent")]) ∧
+    (timeTags.length = 3 ∧ ∀ s : Neg,
+      timeTags.lookup (Tag.second s).rustName = some (Spec.aliasName (.second s), s.variant)) ∧
+    (bitTags.length = 20 ∧ ∀ (b : Base) (s : Pos),
+      bitTags.lookup (Tag.data b s).rustName = some (Spec.aliasName (.data b s), b.variant, b.bits, s.variant)) ∧
+    (timeRatioIsTargetOverSelf = true ∧ bitRatioIsSelfOverTarget = true ∧ noneRatioIsOne = true) ∧
+    (unitNames.length = 26 ∧
+      unitNames.lookup (chars! "None") = some ([], Tag.none.name) ∧
+      unitNames.lookup (chars! "Count") = some ([], Tag.count.name) ∧
+      unitNames.lookup (chars! "Percent") = some ([], Tag.percent.name) ∧
+      (∀ s : Neg, (chars! "Second", s.variant, (Tag.second s).name) ∈ unitNames) ∧
+      (∀ (b : Base) (s : Pos), (b.variant, s.variant, (Tag.data b s).name) ∈ unitNames)) ∧
+    (durationFactorScale = Neg.milli.variant ∧ durationUnitScale = Neg.milli.variant ∧
+      durationTag = (Tag.second .milli).rustName) := by
+  refine ⟨⟨by decide, ?_⟩, ⟨by decide, ?_⟩, by decide, ⟨by decide, ?_⟩, ⟨by decide, ?_⟩, by decide,
+    ⟨by decide, by decide, by decide, by decide, ?_, ?_⟩, by decide⟩
+  · intro s; cases s <;> decide
+  · intro s; cases s <;> decide
+  · intro s; cases s <;> decide
+  · intro b s; cases b <;> cases s <;> decide +kernel
+  · intro s; cases s <;> decide
+  · intro b s; cases b <;> cases s <;> decide +kernel
+
+/-- The model's constants are the SI ones: `reduction_factor`/`expansion_factor` are the powers of
+ten of the prefixes, a byte is 8 bits — hence `FROM_SECONDS`, `FROM_BITS` are the specification's
+`perSecond`, `bitsPer` — and `Unit::name` gives the CloudWatch names. -/
+theorem c19_table_is_SI :
+    (∀ s : Neg, s.reductionFactor = 10 ^ Spec.negExp s ∧ fromSeconds s = Spec.perSecond s) ∧
+    (∀ s : Pos, s.expansionFactor = 10 ^ Spec.posExp s) ∧
+    (∀ b : Base, b.bits = Spec.bitsPerBase b) ∧
+    (∀ (b : Base) (s : Pos), fromBits b s = Spec.bitsPer b s) ∧
+    (∀ t : Tag, t.name = Spec.cloudWatchName t) := by
+  refine ⟨?_, ?_, ?_, ?_, ?_⟩
+  · intro s; cases s <;> decide
+  · intro s; cases s <;> decide
+  · intro b; cases b <;> decide
+  · intro b s; cases b <;> cases s <;> decide
+  · intro t
+    cases t with
+    | none => decide
+    | count => decide
+    | percent => decide
+    | second s => cases s <;> decide
+    | data b s => cases b <;> cases s <;> decide
+
+/-- Unit names identify the unit: no two tags share a name, and no two tags share a struct name. -/
+theorem c19_unit_name_injective (a b : Tag) :
+    (a.name = b.name → a = b) ∧ (a.rustName = b.rustName → a = b) := by
+  have h : ∀ p ∈ Tag.all.flatMap (fun a => Tag.all.map (fun b => (a, b))),
+      (p.1.name = p.2.name → p.1 = p.2) ∧ (p.1.rustName = p.2.rustName → p.1 = p.2) := by
+    decide +kernel
+  exact h (a, b) (by
+    simp only [List.mem_flatMap, List.mem_map]
+    exact ⟨a, Tag.mem_all a, b, Tag.mem_all b, rfl⟩)
+
+-- ------------------------------------------------------------------------------------------------
+-- exact ratios
+
+theorem fromSeconds_pos (s : Neg) : 0 < fromSeconds s := by cases s <;> decide
+theorem fromBits_pos (b : Base) (s : Pos) : 0 < fromBits b s := by cases b <;> cases s <;> decide
+
+theorem natCast_ne_zero {n : Nat} (h : 0 < n) : (n : Rat) ≠ 0 := by
+  intro h0
+  have : n = 0 := by exact_mod_cast h0
+  omega
+
+theorem scale_second (s : Neg) : Spec.scale (.second s) = 1 / (fromSeconds s : Rat) := by
+  simp only [Spec.scale, (c19_table_is_SI.1 s).2]
+
+theorem scale_data (b : Base) (s : Pos) : Spec.scale (.data b s) = (fromBits b s : Rat) := by
+  simp only [Spec.scale, c19_table_is_SI.2.2.2.1 b s]
+
+/-- **The quantity is preserved.** For every convertible pair of units with a physical dimension and
+every number `v`: `v` converted, read in the target unit, is the same quantity as `v` read in the
+source unit. -/
+theorem c19_quantity_preserved (a b : Tag) (h : convertible a b = true) (ha : a ≠ .none) (v : Rat) :
+    v * ratioQ a b * Spec.scale b = v * Spec.scale a := by
+  cases a with
+  | none => exact absurd rfl ha
+  | count => cases b <;> simp [convertible, ratioND] at h
+  | percent => cases b <;> simp [convertible, ratioND] at h
+  | second s =>
+    cases b with
+    | second t =>
+      have hs := natCast_ne_zero (fromSeconds_pos s)
+      have ht := natCast_ne_zero (fromSeconds_pos t)
+      simp only [ratioQ, ratioND, scale_second]
+      grind
+    | _ => simp [convertible, ratioND] at h
+  | data b₁ s₁ =>
+    cases b with
+    | data b₂ s₂ =>
+      have h2 := natCast_ne_zero (fromBits_pos b₂ s₂)
+      simp only [ratioQ, ratioND, scale_data]
+      grind
+    | _ => simp [convertible, ratioND] at h
+
+/-- **Declaring a unit** on a unitless value (`None → U`, any `U`) leaves the number unchanged. -/
+theorem c19_declare_keeps_number (b : Tag) (v : Rat) :
+    convertible .none b = true ∧ ratioQ .none b = 1 ∧ v * ratioQ .none b = v := by
+  refine ⟨rfl, ?_, ?_⟩ <;> simp [ratioQ, ratioND] <;> grind
+
+theorem ratioQ_ne_zero (a b : Tag) (h : convertible a b = true) : ratioQ a b ≠ 0 := by
+  cases a with
+  | none => simp [ratioQ, ratioND]; grind
+  | count => cases b <;> simp [convertible, ratioND] at h
+  | percent => cases b <;> simp [convertible, ratioND] at h
+  | second s =>
+    cases b with
+    | second t =>
+      have hs := natCast_ne_zero (fromSeconds_pos s)
+      have ht := natCast_ne_zero (fromSeconds_pos t)
+      simp only [ratioQ, ratioND]
+      grind
+    | _ => simp [convertible, ratioND] at h
+  | data b₁ s₁ =>
+    cases b with
+    | data b₂ s₂ =>
+      have h1 := natCast_ne_zero (fromBits_pos b₁ s₁)
+      have h2 := natCast_ne_zero (fromBits_pos b₂ s₂)
+      simp only [ratioQ, ratioND]
+      grind
+    | _ => simp [convertible, ratioND] at h
+
+/-- **A conversion composed with its inverse is the identity** (on numbers): whenever both
+directions exist, the two ratios multiply to one. -/
+theorem c19_inverse (a b : Tag) (hab : convertible a b = true) (hba : convertible b a = true) :
+    ratioQ a b * ratioQ b a = 1 := by
+  cases a with
+  | none => cases b <;> simp [convertible, ratioND] at hba; simp [ratioQ, ratioND]; grind
+  | count => cases b <;> simp [convertible, ratioND] at hab
+  | percent => cases b <;> simp [convertible, ratioND] at hab
+  | second s =>
+    cases b with
+    | second t =>
+      have hs := natCast_ne_zero (fromSeconds_pos s)
+      have ht := natCast_ne_zero (fromSeconds_pos t)
+      simp only [ratioQ, ratioND]
+      grind
+    | _ => simp [convertible, ratioND] at hab
+  | data b₁ s₁ =>
+    cases b with
+    | data b₂ s₂ =>
+      have h1 := natCast_ne_zero (fromBits_pos b₁ s₁)
+      have h2 := natCast_ne_zero (fromBits_pos b₂ s₂)
+      simp only [ratioQ, ratioND]
+      grind
+    | _ => simp [convertible, ratioND] at hab
+
+/-- Conversions compose: going through an intermediate unit is the direct conversion. -/
+theorem c19_ratio_compose (a b c : Tag) (hab : convertible a b = true) (hbc : convertible b c = true)
+    (ha : a ≠ .none) : convertible a c = true ∧ ratioQ a b * ratioQ b c = ratioQ a c := by
+  cases a with
+  | none => exact absurd rfl ha
+  | count => cases b <;> simp [convertible, ratioND] at hab
+  | percent => cases b <;> simp [convertible, ratioND] at hab
+  | second s =>
+    cases b with
+    | second t =>
+      cases c with
+      | second u =>
+        have hs := natCast_ne_zero (fromSeconds_pos s)
+        have ht := natCast_ne_zero (fromSeconds_pos t)
+        refine ⟨rfl, ?_⟩
+        simp only [ratioQ, ratioND]
+        grind
+      | _ => simp [convertible, ratioND] at hbc
+    | _ => simp [convertible, ratioND] at hab
+  | data b₁ s₁ =>
+    cases b with
+    | data b₂ s₂ =>
+      cases c with
+      | data b₃ s₃ =>
+        have h2 := natCast_ne_zero (fromBits_pos b₂ s₂)
+        have h3 := natCast_ne_zero (fromBits_pos b₃ s₃)
+        refine ⟨rfl, ?_⟩
+        simp only [ratioQ, ratioND]
+        grind
+      | _ => simp [convertible, ratioND] at hbc
+    | _ => simp [convertible, ratioND] at hab
+
+-- ------------------------------------------------------------------------------------------------
+-- observations
+
+/-- `Convert::convert` on exact numbers -/
+abbrev convertQ (a b : Tag) (o : Obs Rat) : Obs Rat := convert ratArith (ratioQ a b) o
+
+theorem convert_total (r : Rat) (o : Obs Rat) :
+    (convert ratArith r o).total ratArith = o.total ratArith * r := by
+  unfold convert
+  split
+  · rename_i h
+    have : r = 1 := by simpa [ratArith] using h
+    subst this
+    grind
+  · cases o <;> simp [Obs.total, ratArith]
+
+theorem convert_occurrences {α : Type} (A : Arith α) (r : α) (o : Obs α) :
+    (convert A r o).occurrences = o.occurrences := by
+  unfold convert
+  split
+  · rfl
+  · cases o <;> rfl
+
+/-- **Every kind of observation keeps its quantity and its weight**: unsigned, floating or
+repeated, the converted observation read in the target unit is the original read in the source
+unit, and the number of occurrences is untouched. -/
+theorem c19_convert_quantity (a b : Tag) (h : convertible a b = true) (ha : a ≠ .none) (o : Obs Rat) :
+    (convertQ a b o).total ratArith * Spec.scale b = o.total ratArith * Spec.scale a ∧
+    (convertQ a b o).occurrences = o.occurrences := by
+  refine ⟨?_, convert_occurrences _ _ _⟩
+  rw [convertQ, convert_total]
+  exact c19_quantity_preserved a b h ha _
+
+/-- Declaring a unit on a unitless observation returns the observation itself. -/
+theorem c19_declare_keeps_observation (b : Tag) (o : Obs Rat) : convertQ .none b o = o := by
+  simp [convertQ, convert, ratioQ, ratioND, ratArith]
+  intro h
+  exact absurd (by grind) h
+
+/-- there and back: `WithUnit<WithUnit<_, b>, a>` on one observation -/
+abbrev roundTripQ (a b : Tag) (o : Obs Rat) : Obs Rat := convertQ b a (convertQ a b o)
+
+/-- **Round trip on observations**: converting there and back returns the observation — a
+floating or repeated one literally (occurrences untouched), an unsigned one either literally (ratio 1)
+or as the floating observation of the same number. -/
+theorem c19_convert_roundtrip (a b : Tag) (hab : convertible a b = true) (hba : convertible b a = true)
+    (o : Obs Rat) :
+    (roundTripQ a b o = o ∨ ∃ u, o = .unsigned u ∧ roundTripQ a b o = .floating (u : Rat)) ∧
+    (roundTripQ a b o).total ratArith = o.total ratArith ∧
+    (roundTripQ a b o).occurrences = o.occurrences := by
+  have hinv := c19_inverse a b hab hba
+  have hinv' : ratioQ b a * ratioQ a b = 1 := by grind
+  unfold roundTripQ convertQ
+  refine ⟨?_, ?_, ?_⟩
+  · by_cases h1 : ratioQ a b = 1
+    · have h2 : ratioQ b a = 1 := by rw [h1] at hinv; grind
+      left
+      simp [convert, ratArith, h1, h2]
+    · have h2 : ratioQ b a ≠ 1 := by
+        intro h2; rw [h2] at hinv; apply h1; grind
+      cases o with
+      | unsigned u =>
+        right
+        refine ⟨u, rfl, ?_⟩
+        simp only [convert, ratArith, h1, h2, decide_false, Bool.false_eq_true, ↓reduceIte]
+        congr 1
+        rw [Rat.mul_assoc, hinv]; grind
+      | floating f =>
+        left
+        simp only [convert, ratArith, h1, h2, decide_false, Bool.false_eq_true, ↓reduceIte]
+        congr 1
+        rw [Rat.mul_assoc, hinv]; grind
+      | repeated t n =>
+        left
+        simp only [convert, ratArith, h1, h2, decide_false, Bool.false_eq_true, ↓reduceIte]
+        congr 1
+        rw [Rat.mul_assoc, hinv]; grind
+  · rw [convert_total, convert_total, Rat.mul_assoc, hinv]; grind
+  · rw [convert_occurrences, convert_occurrences]
+
+-- non-vacuity: 1500 ms are 1.5 s; 5 Gbit in 3 occurrences are 625 MB in 3 occurrences
+example : convertQ (.second .milli) (.second .one) (.unsigned 1500) = .floating (3 / 2) := by decide +kernel
+example : convertQ (.data .bit .giga) (.data .byte .mega) (.repeated 5 3) = .repeated 625 3 := by decide +kernel
+
+-- ------------------------------------------------------------------------------------------------
+-- the `WithUnit` writer
+
+variable {α : Type} (A : Arith α)
+
+/-- **The emitted unit is the declared one, observations are converted one by one, dimensions pass
+through** — when the wrapped value writes its promised unit. -/
+theorem c19_with_unit_honest (r : α) (src dst : Tag) (obs : List (Obs α)) (dims : List (Nat × Nat)) :
+    withUnit A r src dst (.metric obs src dims) = .metric (obs.map (convert A r)) dst dims := by
+  simp [withUnit]
+
+/-- **A metric comes out of `WithUnit` only in that way**: if `WithUnit<_, dst>` writes a metric
+at all, its unit is `dst`, and the wrapped value wrote a metric with exactly the promised unit
+`src`, whose observations were converted and whose dimensions were kept. -/
+theorem c19_with_unit_metric_only_if (r : α) (src dst : Tag) (o : Out α) (obs' : List (Obs α)) (u : Tag)
+    (dims' : List (Nat × Nat)) (h : withUnit A r src dst o = .metric obs' u dims') :
+    u = dst ∧ ∃ obs, o = .metric obs src dims' ∧ obs' = obs.map (convert A r) := by
+  cases o with
+  | nothing => simp [withUnit] at h
+  | str => simp [withUnit] at h
+  | error es => simp [withUnit] at h
+  | metric obs unit dims =>
+    simp only [withUnit] at h
+    split at h
+    · simp at h
+    · rename_i hu
+      have hu : unit = src := by simpa using hu
+      simp only [Out.metric.injEq] at h
+      exact ⟨h.2.1.symm, obs, by rw [hu, h.2.2], h.1.symm⟩
+
+/-- **Errors instead of wrongly scaled numbers**: a unit on a string, or a value that writes another
+unit than it promised, yields a validation error (and, by `c19_with_unit_metric_only_if`, no metric);
+an error of the wrapped value is passed on; a value that writes nothing still writes nothing. -/
+theorem c19_errors (r : α) (src dst : Tag) :
+    withUnit A r src dst .str = .error [.unitOnString] ∧
+    (∀ obs unit dims, unit ≠ src →
+      withUnit A r src dst (.metric obs unit dims) = .error [.mismatch src unit]) ∧
+    (∀ es, withUnit A r src dst (.error es) = .error es) ∧
+    withUnit A r src dst .nothing = .nothing := by
+  refine ⟨rfl, ?_, fun _ => rfl, rfl⟩
+  intro obs unit dims h
+  simp [withUnit, h]
+
+/-- `Option<V>` is transparent for units: `WithUnit<Option<V>, U>` and `Option<WithUnit<V, U>>`
+write the same. -/
+theorem c19_option_commutes (r : α) (src dst : Tag) (o : Option (Out α)) :
+    withUnit A r src dst (optional o) = optional (o.map (withUnit A r src dst)) := by
+  cases o <;> rfl
+
+/-- Whole-value statement over exact numbers: a value of unit `a` that honestly writes `obs`,
+wrapped in `WithUnit<_, b>`, writes the unit `b`, as many observations, each with the same quantity
+and occurrences, and the same dimensions. -/
+theorem c19_with_unit_quantity (a b : Tag) (h : convertible a b = true) (ha : a ≠ .none)
+    (obs : List (Obs Rat)) (dims : List (Nat × Nat)) :
+    ∃ obs', withUnit ratArith (ratioQ a b) a b (.metric obs a dims) = .metric obs' b dims ∧
+      obs'.length = obs.length ∧
+      ∀ i (hi : i < obs.length) (hi' : i < obs'.length),
+        (obs'[i]).total ratArith * Spec.scale b = (obs[i]).total ratArith * Spec.scale a ∧
+        (obs'[i]).occurrences = (obs[i]).occurrences := by
+  refine ⟨obs.map (convertQ a b), c19_with_unit_honest _ _ _ _ _ _, by simp, ?_⟩
+  intro i hi hi'
+  simp only [List.getElem_map]
+  exact c19_convert_quantity a b h ha _
+
+/-- A full round trip `WithUnit<WithUnit<V, b>, a>` over an honest value writes the unit `a` and
+the same totals and occurrences. -/
+theorem c19_with_unit_roundtrip (a b : Tag) (hab : convertible a b = true) (hba : convertible b a = true)
+    (obs : List (Obs Rat)) (dims : List (Nat × Nat)) :
+    ∃ obs', withUnit ratArith (ratioQ b a) b a (withUnit ratArith (ratioQ a b) a b (.metric obs a dims))
+        = .metric obs' a dims ∧
+      obs'.map (Obs.total ratArith) = obs.map (Obs.total ratArith) ∧
+      obs'.map Obs.occurrences = obs.map Obs.occurrences := by
+  refine ⟨(obs.map (convertQ a b)).map (convertQ b a), ?_, ?_, ?_⟩
+  · rw [c19_with_unit_honest, c19_with_unit_honest]
+  · simp only [List.map_map]
+    apply List.map_congr_left
+    intro o _
+    exact (c19_convert_roundtrip a b hab hba o).2.1
+  · simp only [List.map_map]
+    apply List.map_congr_left
+    intro o _
+    exact (c19_convert_roundtrip a b hab hba o).2.2
 
 end Units
+
+#print axioms Units.c19_generated_is_model
+#print axioms Units.c19_table_is_SI
+#print axioms Units.c19_unit_name_injective
+#print axioms Units.c19_quantity_preserved
+#print axioms Units.c19_declare_keeps_number
+#print axioms Units.c19_inverse
+#print axioms Units.c19_ratio_compose
+#print axioms Units.c19_convert_quantity
+#print axioms Units.c19_declare_keeps_observation
+#print axioms Units.c19_convert_roundtrip
+#print axioms Units.c19_with_unit_honest
+#print axioms Units.c19_with_unit_metric_only_if
+#print axioms Units.c19_errors
+#print axioms Units.c19_option_commutes
+#print axioms Units.c19_with_unit_quantity
+#print axioms Units.c19_with_unit_roundtrip
